@@ -115,6 +115,7 @@ OE28 == <<"obstacle_environment", "28">>
 PPS  == <<"planning_problem_set", "-">>
 PP31 == <<"planning_problem", "31">>
 PP32 == <<"planning_problem", "32">>
+PP33 == <<"planning_problem", "33">>        \* its goal region is a separate object that compares EQUAL to the one of 32
 GOAL == <<"goal", "-">>
 S(i) == <<"state", i>>
 OCC(i) == <<"occupancy", i>>
@@ -176,7 +177,9 @@ BaseWorld == <<
   C("goal_shape",     "none", <<PPS, PP31, GOAL, S("3")>>, << <<-4, -8>> >>, <<>>),
   C("goal_shape",     "none", <<PPS, PP31, GOAL, S("4")>>, << <<-20, -10>>, <<-16, -7>>, <<-16, -10>> >>, <<>>),
   C("pp_init",        "none", <<PPS, PP32, ST>>, << <<-3, -3>> >>, << <<0, -1, 1>> >>),
-  C("goal_shape",     "none", <<PPS, PP32, GOAL, S("0")>>, << <<-6, -6>> >>, << <<1, 0, 1>> >>)
+  C("goal_shape",     "none", <<PPS, PP32, GOAL, S("0")>>, << <<-6, -6>> >>, << <<1, 0, 1>> >>),
+  C("pp_init",        "none", <<PPS, PP33, ST>>, << <<-2, -5>> >>, << <<0, 1, 1>> >>),
+  C("goal_shape",     "none", <<PPS, PP33, GOAL, S("0")>>, << <<-6, -6>> >>, << <<1, 0, 1>> >>)
 >>
 (* Rectangles export their planar geometry as corner points (public `vertices`, computed on demand from centre, size  *)
 (* and orientation and possibly cached).  The exported corners are stored points too: they must move with the        *)
@@ -190,7 +193,8 @@ Rects == <<
   <<"phantom_occ",   "phantom",     <<SC, OP26, PRED, OCC("0")>>,                          <<-10, 0>>, 10, 5, <<-3, 4, 5>> >>,
   <<"env_shape",     "environment", <<SC, OE28>>,                                          <<26, 14>>, 10, 5, <<4, -3, 5>> >>,
   <<"goal_shape",    "none",        <<PPS, PP31, GOAL, S("0")>>,                           <<12, 4>>,  10, 5, <<3, 4, 5>> >>,
-  <<"goal_shape",    "none",        <<PPS, PP32, GOAL, S("0")>>,                           <<-6, -6>>, 1, 1,  <<1, 0, 1>> >>
+  <<"goal_shape",    "none",        <<PPS, PP32, GOAL, S("0")>>,                           <<-6, -6>>, 1, 1,  <<1, 0, 1>> >>,
+  <<"goal_shape",    "none",        <<PPS, PP33, GOAL, S("0")>>,                           <<-6, -6>>, 1, 1,  <<1, 0, 1>> >>
 >>
 Corner(ctr, lx, ly, o) == <<ctr[1] + (lx * o[1] - ly * o[2]) \div o[3], ctr[2] + (lx * o[2] + ly * o[1]) \div o[3]>>
 RectCorners(r) == << Corner(r[4], -r[5], -r[6], r[7]), Corner(r[4], -r[5], r[6], r[7]),
